@@ -76,7 +76,7 @@ Definition l0_insert_at (l : list Z) (i : nat) (xs : list Z) : list Z := firstn 
 Definition l0_resize (l : list Z) (n : nat) : list Z := firstn n l ++ repeat 0%Z (n - length l).
 
 (* the uint32 sum a+b wraps around or is MUSCLE_NO_LIMIT (2^32-1): EnsureSize / EnsureCanAdd / ShrinkToFit then
-   return B_RESOURCE_LIMIT before touching anything [EnsureSizeAux: with the repair of the unguarded size+extraPreallocs] *)
+   return B_RESOURCE_LIMIT before touching anything [EnsureSizeAux: with the repair of the unguarded size+extraPreallocs, finding F61] *)
 Definition too_big (a b : N) : bool := N.leb 4294967295%N (a + b).
 
 Definition l0_index_of (l : list Z) (x : Z) (from to : nat) : option nat :=
@@ -502,11 +502,15 @@ Definition normalize (q : q1) : q1 :=
   else
     mkQ (st q) (skipn (head q) (arr q) ++ firstn (head q) (arr q)) (cnt q) 0 (cnt q - 1) (inl q).
 
+(* RemoveAllInstancesOf(val): collapse the non-matching items towards the head (readFrom / writeTo loop), then
+   RemoveTail() once per surplus slot *)
+Definition rai_step (x : Z) (s : q1 * nat) (rf : nat) : q1 * nat :=
+  let '(g, w) := s in
+  if Z.eqb (getu g rf) x then (g, w)
+  else ((if w <? rf then setu g w (getu g rf) else g), w + 1).
 Definition remove_all_instances (q : q1) (x : Z) : q1 * nat :=
-  let items := abs q in
-  let keep := filter (fun y => negb (Z.eqb y x)) items in
-  let q2 := write_from q 0 keep in
-  (iter (length items - length keep) remove_tail q2, length items - length keep).
+  let '(g, w) := fold_left (rai_step x) (seq 0 (cnt q)) (q, 0) in
+  (iter (cnt q - w) remove_tail g, cnt q - w).
 
 (* ---- operations involving a second Queue *)
 
